@@ -326,9 +326,28 @@ func classify(to common.Address, input, ret []byte, vmErr string) pres {
 
 type probeObs struct {
 	Mode  int
-	To    common.Address
+	To    common.Address // the contract the probe is about
 	Probe probeKind
 	Res   pres
+	Via   int // 0 = the transaction calls To itself, 1 = through a forwarder using CALL, 2 = using STATICCALL
+}
+
+var viaNames = []string{"Direct", "ViaCall", "ViaStaticCall"}
+
+func forwarderAddr(k int) common.Address {
+	return common.BigToAddress(new(big.Int).Add(new(big.Int).Lsh(big.NewInt(0xC17F), 144), big.NewInt(int64(k+1))))
+}
+
+// placeForwarder puts a forwarding contract for target at a harness address (between blocks)
+func (w *world) placeForwarder(k int, op byte, target common.Address) common.Address {
+	c := w.c
+	at := forwarderAddr(k)
+	ctx := c.Ctx()
+	if c.App.AccountKeeper.GetAccount(ctx, sdk.AccAddress(at.Bytes())) == nil {
+		c.App.AccountKeeper.SetAccount(ctx, c.App.AccountKeeper.NewAccountWithAddress(ctx, sdk.AccAddress(at.Bytes())))
+	}
+	c.SetCode(at, BuildProxy(op, target))
+	return at
 }
 
 // ------------------------------------------------------------------ the world of one case
@@ -1197,46 +1216,82 @@ func (w *world) candidates(cur *regState) []common.Address {
 	return out
 }
 
-// probeAll commits, then calls every candidate with every probe in the four modes
+// probeAll commits, then calls every candidate with every probe in the four modes; four of the candidates (one of
+// each class when there is one) are also called by a forwarding contract with CALL / STATICCALL
 func (w *world) probeAll(cur *regState) []probeObs {
 	c := w.c
-	c.RunBlock(nil) // direct writes become the committed state: check state and query state are now this state
-	w.refreshPrice()
 	cands := w.candidates(cur)
 	type call struct {
-		to common.Address
-		pk probeKind
+		target common.Address
+		to     common.Address
+		pk     probeKind
+		via    int
 	}
 	var calls []call
 	for _, a := range cands {
 		for pk := prName; pk <= prGarbage; pk++ {
-			calls = append(calls, call{a, pk})
+			calls = append(calls, call{a, a, pk, 0})
 		}
 	}
+	var nested []common.Address
+	pickClass := func(f func(a common.Address, m *cpctypes.CustomPrecompiledContractMeta) bool) {
+		for _, a := range cands {
+			if !isStd(a) && f(a, cur.meta(a)) {
+				for _, x := range nested {
+					if x == a {
+						return
+					}
+				}
+				nested = append(nested, a)
+				return
+			}
+		}
+	}
+	pickClass(func(a common.Address, m *cpctypes.CustomPrecompiledContractMeta) bool { return m != nil && m.Disabled })
+	pickClass(func(a common.Address, m *cpctypes.CustomPrecompiledContractMeta) bool {
+		return m != nil && !m.Disabled && m.CustomPrecompiledType != cpctypes.CpcTypeBech32
+	})
+	pickClass(func(a common.Address, m *cpctypes.CustomPrecompiledContractMeta) bool { return m == nil })
+	pickClass(func(a common.Address, m *cpctypes.CustomPrecompiledContractMeta) bool { return m != nil && !m.Disabled })
+	for k, a := range nested {
+		op, via := OpCALL, 1
+		if (k+w.r.Intn(2))%2 == 1 {
+			op, via = OpSTATICCALL, 2
+		}
+		at := w.placeForwarder(k, op, a)
+		for pk := prName; pk <= prGarbage; pk++ {
+			calls = append(calls, call{a, at, pk, via})
+		}
+	}
+	c.RunBlock(nil) // direct writes become the committed state: check state and query state are now this state
+	w.refreshPrice()
 	var out []probeObs
 	base := c.Nonce(c.QueryCtx(), w.prob.GetEthAddress())
+	rejected := func(mode int, cl call, why string) {
+		out = append(out, probeObs{mode, cl.target, cl.pk, pres{Class: "TxRejected", Str: why}, cl.via})
+	}
 	// Simulate + Query + Check replay: all against the committed state, nothing persists
 	for _, cl := range calls {
 		in := probeSel[cl.pk]
 		bzSim, msgSim := w.ethTx(base, cl.to, in)
 		_, res, err := c.App.BaseApp.Simulate(bzSim)
 		if err != nil {
-			out = append(out, probeObs{2, cl.to, cl.pk, pres{Class: "TxRejected", Str: err.Error()}})
+			rejected(2, cl, err.Error())
 		} else {
 			ret, vmErr := decodeEthResponse(w.t, c, res.Data)
-			out = append(out, probeObs{2, cl.to, cl.pk, classify(cl.to, in, ret, vmErr)})
+			out = append(out, probeObs{2, cl.target, cl.pk, classify(cl.target, in, ret, vmErr), cl.via})
 		}
 		ret, vmErr, err := w.queryCall(cl.to, in)
 		if err != nil {
-			out = append(out, probeObs{3, cl.to, cl.pk, pres{Class: "TxRejected", Str: err.Error()}})
+			rejected(3, cl, err.Error())
 		} else {
-			out = append(out, probeObs{3, cl.to, cl.pk, classify(cl.to, in, ret, vmErr)})
+			out = append(out, probeObs{3, cl.target, cl.pk, classify(cl.target, in, ret, vmErr), cl.via})
 		}
 		ret, vmErr, err = w.checkModeCall(msgSim)
 		if err != nil {
-			out = append(out, probeObs{1, cl.to, cl.pk, pres{Class: "TxRejected", Str: err.Error()}})
+			rejected(1, cl, err.Error())
 		} else {
-			out = append(out, probeObs{1, cl.to, cl.pk, classify(cl.to, in, ret, vmErr)})
+			out = append(out, probeObs{1, cl.target, cl.pk, classify(cl.target, in, ret, vmErr), cl.via})
 		}
 	}
 	// CheckTx through ABCI, then the same transactions in one block
@@ -1257,11 +1312,11 @@ func (w *world) probeAll(cur *regState) []probeObs {
 	for i, cl := range calls {
 		tr := res.TxResults[i]
 		if tr.Code != 0 {
-			out = append(out, probeObs{0, cl.to, cl.pk, pres{Class: "TxRejected", Str: tr.Log}})
+			rejected(0, cl, tr.Log)
 			continue
 		}
 		ret, vmErr := decodeEthResponse(w.t, c, tr.Data)
-		out = append(out, probeObs{0, cl.to, cl.pk, classify(cl.to, probeSel[cl.pk], ret, vmErr)})
+		out = append(out, probeObs{0, cl.target, cl.pk, classify(cl.target, probeSel[cl.pk], ret, vmErr), cl.via})
 	}
 	w.nprobes += len(out)
 	return out
@@ -1399,12 +1454,13 @@ func (w *world) oracleProbes(s *regState, probes []probeObs, desc interface{}) {
 	type key struct {
 		a common.Address
 		p probeKind
+		v int
 	}
 	first := map[key]probeObs{}
 	for _, p := range probes {
 		m := s.meta(p.To)
-		where := fmt.Sprintf("%s %s -> %s: %s", modeNames[p.Mode], probeNames[p.Probe], p.To.Hex(), p.Res)
-		k := key{p.To, p.Probe}
+		where := fmt.Sprintf("%s %s %s -> %s: %s", modeNames[p.Mode], viaNames[p.Via], probeNames[p.Probe], p.To.Hex(), p.Res)
+		k := key{p.To, p.Probe, p.Via}
 		if f, ok := first[k]; ok {
 			if f.Res.coq() != p.Res.coq() || f.Res.Class != p.Res.Class {
 				w.hit(sigModeDiffers, fmt.Sprintf("%s, but %s gave %s", where, modeNames[f.Mode], f.Res), desc)
@@ -1420,6 +1476,11 @@ func (w *world) oracleProbes(s *regState, probes []probeObs, desc interface{}) {
 		case m == nil:
 			if p.Res.Class != "OkEmpty" {
 				w.hit(sigUnregisteredRun, where+" (no contract is registered there)", desc)
+			}
+		case m.Disabled && p.Via != 0:
+			// the forwarder reverts when its call fails: an answer of the contract must not come back
+			if p.Res.Class != "Revert" {
+				w.hit(sigDisabledRuns, where+" (the contract is marked disabled)", desc)
 			}
 		case m.Disabled:
 			if custom {
@@ -1691,7 +1752,10 @@ func emitCase(t *testing.T, cases *CasesFile, side *Sidecar, i int, kind string,
 				if p.Mode == 0 && p.Probe == prGarbage {
 					side.Count("probe-target:" + cls)
 				}
-				pterms = append(pterms, fmt.Sprintf("(%s, %s, %s, %s)", modeNames[p.Mode], cz(addrZ(p.To)), probeNames[p.Probe], p.Res.coq()))
+				pterms = append(pterms, fmt.Sprintf("(%s, %s, %s, %s, %s)", modeNames[p.Mode], viaNames[p.Via], cz(addrZ(p.To)), probeNames[p.Probe], p.Res.coq()))
+				if p.Mode == 0 && p.Probe == prName && p.Via != 0 {
+					side.Count("probe-nested:" + viaNames[p.Via] + ":" + cls)
+				}
 			}
 			desc.Probes += len(ps)
 		}
